@@ -30,8 +30,15 @@ def exec_job(job):
     fn = job["fn"]
     dr, conn, latt, mask, signed = VARIANTS[fn]
     R0 = np.array(job["R0"], dtype=float)
+    # weight magnitudes: multiplying every weight by a power of two changes neither signs nor which
+    # weights are equal, so the record (and the specification) keep the small integers while the
+    # real call sees weights of 256.., 2**40.. or 2**-560.. (products of such weights overflow narrow
+    # integer types / underflow floats); outputs are divided back exactly
+    p2 = job.get("pow2")
+    scale = 2.0 ** p2 if p2 else 1.0
+    R0 = R0 * scale
     # callers pass adjacency matrices of many types and layouts; the record keeps the values
-    if job.get("dtype") in ("int", "int32", "uint8", "float32"):
+    if job.get("dtype") in ("int", "int32", "int16", "uint8", "float32"):
         R0 = R0.astype({"int": int}.get(job["dtype"], job["dtype"]))
     if job.get("dtype") == "bool" and np.isin(R0, (0, 1)).all():
         R0 = R0.astype(bool)
@@ -43,7 +50,8 @@ def exec_job(job):
         R0 = big[1:-1, 2:-1]
     n = len(R0)
     rec = dict(fn=fn, prop=job["prop"], n=n, dir=dr, conn=conn, latt=latt, mask=mask, signed=signed,
-               R0=encode.mat_int(R0), D=encode.mat_int(job["D"]) if job.get("D") else [],
+               R0=encode.mat_int(np.array(job["R0"], dtype=float)),
+               D=encode.mat_int(job["D"]) if job.get("D") else [],
                B=encode.mat_int((np.array(job["B"]) != 0).astype(int)) if job.get("B")
                else encode.mat_int(np.zeros((n, n))),
                raised="", malformed="", events=[], out=[], eff_out=-1, Rrp=[], ind_rp=[],
@@ -61,7 +69,7 @@ def exec_job(job):
             e["i"] = [int(x) + 1 for x in f["i"]]
             e["j"] = [int(x) + 1 for x in f["j"]]
         if e["acc"]:
-            e["R"] = np.array(f["R"], dtype=float)      # snapshot now, encode later
+            e["R"] = np.array(f["R"], dtype=float) / scale      # snapshot now, encode later
         events.append(e)
 
     if job.get("script") is not None:
@@ -87,7 +95,7 @@ def exec_job(job):
         elif latt:
             D = np.array(job["D"], dtype=float) if job.get("D") else None
             out, Rrp, ind_rp, eff = f(Rarg, itr, D=D, seed=r)
-            rec["Rrp"] = encode.mat_int(Rrp)
+            rec["Rrp"] = encode.mat_int(np.array(Rrp, dtype=float) / scale)
             rec["ind_rp"] = [int(x) + 1 for x in ind_rp]
         else:
             out, eff = f(Rarg, itr, seed=r)
@@ -97,7 +105,7 @@ def exec_job(job):
     finally:
         mu._verif_sinks.remove(sink)
     try:
-        rec["out"] = encode.mat_int(out)
+        rec["out"] = encode.mat_int(np.array(out, dtype=float) / scale)
         rec["eff_out"] = int(eff)
         if len(events) > 400:
             rec["malformed"] = ""
